@@ -67,6 +67,14 @@ def run(ctx):
     garbage += [b"", b"\xb5", b"\xb5\x62", b"\xb5\x62\x13\x00\x00\x00\x13\x4c", b"\xb5\x62\x01\x02\x05\x00" + bytes(70000)]
     cmds = []
     cases = []
+    # payloads at and beyond what the 2-byte length field can express (only reachable through parse(), never a stream)
+    for k in (b"\x01\x07", b"\x05\x01", b"\x77\x01", b"\x04\x02", b"\x0a\x04"):
+        for L in (65535, 65536, 65537, 70000):
+            f = b"\xb5\x62" + k + (L & 0xFFFF).to_bytes(2, "little") + bytes(L) + b"\x00\x00"
+            for mode in (0, 1, 2, 3):
+                for val in (0, 1):
+                    cases.append((f, mode, 1, val))
+                    cmds.append("PARSE %d %d 1 %s" % (mode, val, f.hex()))
     for n, f in enumerate(frames):
         mode, bf, val = n % 4, (n // 4) % 2, 1 if n % 5 else 0
         cases.append((f, mode, bf, val))
